@@ -404,6 +404,11 @@ def _compare_rules(ck: Checker) -> None:
             if f"{side}.meta" not in alts and f"{side}_meta" not in alts and f"{side}_isdir" not in norm(t.ast):
                 return False
             isdir = ".isdir" in alts or "_isdir" in norm(t.ast)
+            e_ = t.ast
+            if isinstance(e_, ast.Compare) and len(e_.ops) == 1 and isinstance(e_.ops[0], (ast.Is, ast.IsNot)) and isinstance(e_.comparators[0], ast.Constant) and e_.comparators[0].value is None and not isdir:
+                # `meta is not None` / `meta is None` on the entry's metadata: the no-metadata edge means "not a directory"
+                no_meta = (isinstance(e_.ops[0], ast.IsNot) and lab == "F") or (isinstance(e_.ops[0], ast.Is) and lab == "T")
+                return (not want_dir) and no_meta
             if want_dir:
                 return isdir and lab == "T"
             return lab == "F" and (isdir or norm(t.ast).endswith(".meta") or norm(t.ast).endswith("_meta"))  # not isdir, or no meta at all
@@ -424,8 +429,13 @@ def _compare_rules(ck: Checker) -> None:
         def skip(a, lab, b, arg=arg):
             if lab == "exc":
                 return True
-            t = norm(a.ast) if a.kind == "test" else ""
-            return a.kind == "test" and lab == "F" and t in (f"{arg}.meta.isexec", f"{arg}.meta")
+            if a.kind != "test":
+                return False
+            # `meta = entry.meta` copied into a local; `meta is not None` instead of truthiness
+            ts = {norm(z) for z in [a.ast] + expand1(prog, cmp_, a.ast, levels=2)}
+            if lab == "F" and ts & {f"{arg}.meta.isexec", f"{arg}.meta", f"{arg}.meta is not None"}:
+                return True
+            return lab == "T" and bool(ts & {f"{arg}.meta is None", f"not {arg}.meta"})
 
         starts = [d for lab, d in g.nodes[n.loops[-1]].succ if lab == "T"] if n.loops else [g.entry]
         reached = g.reach(starts, skip_node=lambda x: x.id in chm, skip_edge=skip)
